@@ -1102,6 +1102,6 @@ MANIFEST = {
              "last step after offsets and lengths; signature-block sub-blocks and image offsets are aligned and disjoint on finite models of presence/length/preset combinations. "
              "Cryptographic validity and all-size arithmetic are not executed.",
     "note": "Trusted: hash/cipher/signature primitives, struct. Frozen tables: 14 wire pairs, 8 verifier sites. Models: block lengths {8,12,100}, image sizes {1,4,7}, alignment 4/8.",
-    "technique": "static analysis: AST pack/unpack symmetry (PackSym), bit-provenance abstract interpretation of flag producers/getters, call-site width rule, producer/verifier expression twins, symbolic-path substitution, byte-layout normal forms, sibling index rule, argument-class vs attributes-read rule, "
+    "technique": "static analysis: AST pack/unpack symmetry (PackSym), bit-provenance abstract interpretation of flag producers/getters, call-site width rule, producer/verifier expression twins, symbolic-path substitution, byte-layout normal forms, sibling index rule, argument-class vs attributes-read rule, , raw-peek agreement with the packed layout, export/parse round trip of ContainerSignature and AhabBlob interpreted on model objects (E19)"
                  "abstract evaluation of the offset-assignment code on finite models",
 }
